@@ -75,6 +75,9 @@ func runRef(b []M, db string) (*RefRun, error) {
 		if err := r.Step(ev); err != nil {
 			return nil, fmt.Errorf("ref step %d: %w", i, err)
 		}
+		if r.W != nil && r.W.Halted {
+			break
+		}
 		last := r.Raw[len(r.Raw)-1]
 		res := last["res"].(J)
 		switch mStr(ev, "a") {
@@ -204,6 +207,9 @@ func cmdTwin(fs *flag.FlagSet, in, out string, seed int64) error {
 			}
 			if err := r.Step(ev); err != nil {
 				return fmt.Errorf("replica B, behaviour %d step %d: %w", i, j, err)
+			}
+			if r.W != nil && r.W.Halted {
+				break
 			}
 		}
 	}
